@@ -38,23 +38,30 @@ def zeros_of_regions(env: SymEnv, x: ast.AST, R: Any) -> bool:
     return bool(m) and atom_of(env.ev(m["N_"])) == ("len", R)
 
 
-def local_helpers(repo, fi: FuncInfo) -> Dict[str, Callable]:
-    """Nested single-return functions of `fi` as callables on folded values."""
+def local_helpers(repo, fi: FuncInfo, outer: Optional[Dict[str, Any]] = None) -> Dict[str, Callable]:
+    """Nested functions of `fi` as callables on folded values (their bodies are evaluated with sa.blockeval; free names come from `outer`)."""
+    from sa.blockeval import BlockEval
+
     out: Dict[str, Callable] = {}
     for d in ast.walk(fi.node):
         if d is fi.node or not isinstance(d, ast.FunctionDef):
             continue
+        if d.args.kwonlyargs or d.args.vararg or d.args.kwarg:
+            continue
+        params = [a.arg for a in d.args.args]
         body = [s for s in d.body if not (isinstance(s, ast.Expr) and isinstance(s.value, ast.Constant))]
-        if len(body) == 1 and isinstance(body[0], ast.Return) and body[0].value is not None and not d.args.kwonlyargs and not d.args.vararg:
-            params = [a.arg for a in d.args.args]
-            ret = body[0].value
 
-            def call(*vals, _p=params, _r=ret):
-                if len(vals) != len(_p):
-                    raise AnalysisError("helper arity")
-                return Folder(repo, MOD, dict(zip(_p, vals))).fold(_r)
+        def call(*vals, _p=params, _b=body):
+            if len(vals) != len(_p):
+                raise AnalysisError("helper arity")
+            env = dict(outer or {})
+            env.update(zip(_p, vals))
+            kind, val = BlockEval(repo, MOD, env).run(_b)
+            if kind != "return":
+                raise AnalysisError("helper does not return")
+            return val
 
-            out[d.name] = call
+        out[d.name] = call
     return out
 
 
@@ -276,7 +283,7 @@ def _objective_terms(chk, fi: FuncInfo, fm: FlowMap, inl: Inliner, obj: ast.AugA
     def coeff(k: int, v: float, ln: float) -> Tuple[float, int]:
         total, n = 0.0, 0
         loc: Dict[str, Any] = {lvl: k, var: v, "region_by_var": {v: (-7, -11, ln)}}
-        loc.update(helpers)
+        loc.update(local_helpers(repo, fi, dict(loc)))
         for expr, _, guards, site in srcs:
             taken = True
             for g in guards:
@@ -400,9 +407,9 @@ def check_variables(chk, fi: FuncInfo, fm: FlowMap) -> bool:
     return fmt
 
 
-def name_field_roles(loop: ast.For, v: str) -> Optional[Dict[str, str]]:
+def name_field_roles(loop: ast.For, v: str, elements_are_names: bool = False) -> Optional[Dict[str, str]]:
     """name -> 'REGION' | 'LEVEL' | 'PREFIX' for locals bound from `<v>.getName().split('_')` (name format x_<region>_<level>)."""
-    names_of_name = [f"{v}.getName()", f"{v}.name"]
+    names_of_name = [f"{v}.getName()", f"{v}.name"] + ([v] if elements_are_names else [])
     for s in ast.walk(loop):
         if isinstance(s, ast.Assign) and isinstance(s.targets[0], ast.Name) and norm(s.value) in names_of_name:
             names_of_name.append(s.targets[0].id)
@@ -433,6 +440,16 @@ def name_field_roles(loop: ast.For, v: str) -> Optional[Dict[str, str]]:
 
 def check_readback(chk, fi: FuncInfo, fm: FlowMap, env: SymEnv, R: Any, fmt_ok: bool) -> None:
     rb_loops = [l for l in fi.node.body if isinstance(l, ast.For) and astq.match(l.iter, "problem.variables()") is not None]
+    pre_sel = None  # second form: names (or variables) of the selected variables are collected first, then decoded
+    if not rb_loops:
+        for l in [l for l in fi.node.body if isinstance(l, ast.For) and isinstance(l.iter, ast.Name) and isinstance(l.target, ast.Name)]:
+            d = [val for stx, val in astq.assignments(fi.node, l.iter.id) if val is not None]
+            if len(d) == 1 and isinstance(d[0], (ast.ListComp, ast.GeneratorExp)) and len(d[0].generators) == 1 and astq.match(d[0].generators[0].iter, "problem.variables()") is not None and isinstance(d[0].generators[0].target, ast.Name):
+                g0 = d[0].generators[0]
+                x = g0.target.id
+                if norm(d[0].elt) in (x, f"{x}.getName()", f"{x}.name"):
+                    rb_loops = [l]
+                    pre_sel = (d[0], x, norm(d[0].elt) != x)
     if len(rb_loops) != 1 or not isinstance(rb_loops[0].target, ast.Name):
         chk.error("milp-readback", fi.where, "read-back loop over problem.variables() not found")
         return
@@ -444,6 +461,18 @@ def check_readback(chk, fi: FuncInfo, fm: FlowMap, env: SymEnv, R: Any, fmt_ok: 
         return
     st = stores[0]
     fs = facts(fm.guards_within(st, loop))
+    if pre_sel is not None:
+        from sa.flow import Guard
+
+        comp, x, is_name = pre_sel
+        # the selection lives in the comprehension; rewrite it in terms of the loop variable of the decoding loop
+        class _Ren(ast.NodeTransformer):
+            def visit_Name(s2, n):
+                return ast.copy_location(ast.Name(id=v, ctx=n.ctx), n) if n.id == x else n
+
+        import copy as _copy
+
+        fs = list(fs) + [g2 for c2 in comp.generators[0].ifs for g2 in facts([Guard(_Ren().visit(_copy.deepcopy(c2)), True, "comp", None)])]
     pos = (f"{v}.varValue == 1", f"round({v}.varValue) == 1", f"{v}.varValue > 0.5", f"{v}.varValue >= 0.5", f"1 == {v}.varValue")
     neg = (f"{v}.varValue != 1", f"{v}.varValue < 0.5", f"round({v}.varValue) != 1")
     sel = [g for g in fs if "varValue" in norm(g.test)]
@@ -456,7 +485,7 @@ def check_readback(chk, fi: FuncInfo, fm: FlowMap, env: SymEnv, R: Any, fmt_ok: 
         chk.violation("milp-readback", fi.site(st), f"levels are read from the variables that are NOT selected (`{norm(sel[0].test)}` is {sel[0].polarity})", K(fi, "readback-select"))
     else:
         chk.error("milp-readback", fi.site(st), f"selection of the read-back `{[norm(g.test) for g in fs]}` not recognised")
-    roles = name_field_roles(loop, v)
+    roles = name_field_roles(loop, v, elements_are_names=bool(pre_sel and pre_sel[2]))
     if roles is None:
         chk.error("milp-readback", fi.site(loop), "parsing of the variable name in the read-back not recognised")
     else:
